@@ -235,7 +235,6 @@ func (vc *VC) query(o *Obligation, model bool) string {
 	if o.Desc != "" {
 		b.WriteString("; " + strings.ReplaceAll(o.Desc, "\n", " ") + "\n")
 	}
-	b.WriteString("(set-option :smt.mbqi true)\n")
 	b.WriteString("(set-logic ALL)\n")
 	for _, s := range vc.sortList {
 		b.WriteString(fmt.Sprintf("(declare-sort %s 0)\n", s))
